@@ -27,7 +27,11 @@ THEOREMS = ["fasta_read_write", "fasta_rewrap_invariant", "fasta_file_lines", "f
             "alimanip_reorder_attached",
             # round 4: esl-afetch (sequential search, SSI lookup, verbatim echo of the record's span)
             "afetch_sequential_returns_requested", "afetch_sequential_first_match", "afetch_indexed_returns_requested",
-            "afetch_indexed_name_before_accession", "afetch_echo_is_record_text"]
+            "afetch_indexed_name_before_accession", "afetch_echo_is_record_text",
+            # round 4: esl-reformat fasta <alignment file> (sequence branch over the C03 readers and C15 FetchFromMSA)
+            "reformat_fasta_lines_are_sequence", "reformat_fasta_convert_pointwise",
+            # round 4: esl-alistat on Stockholm/Pfam in digital mode with --list/--icinfo/--rinfo/--iinfo/--cinfo
+            "alistat_column_counters", "alistat_count_cells", "alistat_rfpos_cells"]
 
 SQFORMATS = ["fasta", "embl", "genbank", "uniprot", "ddbj", "daemon", "hmmpgmd", "ncbi", "fmindex"]
 MSAFORMATS = ["stockholm", "pfam", "a2m", "afa", "psiblast", "clustal", "clustallike", "selex", "phylip", "phylips"]
@@ -818,6 +822,59 @@ def ref_reformat(rng, i):
             "ops": [op_file("in.x", text), op_run("esl-reformat", args)]}, "esl-reformat", args)
 
 
+def ref_reformat_msa2fasta(rng, i):
+    """esl-reformat fasta <alignment file>: several Stockholm alignments in one file (the numbering of --rename runs on), #=GS AC / DE
+    (printed behind the name), per-sequence SS lines (dealigned in parallel; --fullwuss refuses a non-WUSS line), rows that are all
+    gaps (a header without sequence lines), rows longer than one 60-residue line; every other alignment format as input"""
+    nali = rng.choice([1, 1, 2, 3])
+    text, k0 = "", 0
+    bad_ss = False
+    for a in range(nali):
+        rows, abc = wide_rows(rng, alen=rng.choice([None, 5, 61, 130]), gaps=rng.choice(["-", "-.", "-._~"]))
+        rows = [("%s_%d" % (n, a + 1), s_) for n, s_ in rows]
+        alen = len(rows[0][1])
+        if rng.random() < 0.2: rows[rng.randrange(len(rows))] = (rows[0][0] + "gap", "-" * alen)
+        if len(set(n for n, _ in rows)) < len(rows): rows = [("q%d_%d" % (k + 1, a + 1), s_) for k, (n, s_) in enumerate(rows)]
+        grss = None
+        if rng.random() < 0.4:
+            grss = {k: balanced_ss(rng, alen, kh=rng.random() < 0.2) for k in range(len(rows)) if rng.random() < 0.6}
+            if rng.random() < 0.15 and grss:
+                k = rng.choice(sorted(grss)); grss[k] = "><" + grss[k][2:] if alen > 2 else grss[k]; bad_ss = True
+        desc = {k: rng.choice(["a description", "x", "two  spaces"]) for k in range(len(rows)) if rng.random() < 0.3}
+        t = sto_text_blocks(rows, max(1, rng.choice([alen, 200, 50])), grss=grss, desc=desc, ident=rng.choice([None, "aln%d" % (a + 1)]))
+        for k in range(len(rows)):
+            if rng.random() < 0.25:
+                t = t.replace("# STOCKHOLM 1.0\n", "# STOCKHOLM 1.0\n#=GS %s AC AC%04d.%d\n" % (rows[k][0], rng.randrange(10000), k), 1)
+        text += t
+    infmt = "stockholm"
+    ops = [op_file("in.x", text)]
+    if nali == 1 and rng.random() < 0.5:
+        infmt = rng.choice(["clustal", "clustallike", "selex", "psiblast", "a2m", "pfam", "phylip", "phylips"])
+        ops += [op_run("esl-reformat", ["--informat", "stockholm", infmt, "in.x"]), "save name=in.y"]
+        src = "in.y"
+    else:
+        src = "in.x"
+    args = []
+    for a_, b_ in (("-d", "-r"), ("-l", "-u"), ("-n", "-x")):
+        w = rng.random()
+        if w < 0.2: args.append(a_)
+        elif w < 0.4: args.append(b_)
+    if rng.random() < 0.3: args += ["--rename", rng.choice(["new", "s", "x.y"])]
+    if rng.random() < 0.2: args += ["--replace", rng.choice(["A:x", "AC:ca", "acgt:ACGT", "N:n", "GU:ug"])]
+    if rng.random() < 0.15: args += ["--gapsym", rng.choice([".", "x"])]
+    elif rng.random() < 0.15: args.append(rng.choice(["--mingap", "--nogap"]))
+    if rng.random() < 0.1: args += ["--namelen", "5"]
+    w = rng.random()
+    if w < 0.15: args.append("--fullwuss")
+    elif w < 0.25: args.append("--wussify")
+    elif w < 0.35: args.append("--dewuss")
+    args += ["--informat", infmt, "fasta", src]
+    c = {"name": "ref-reformat-m2f-%d" % i, "ref": True, "sticky": 1, "ops": ops + [op_run("esl-reformat", args)]}
+    if "--fullwuss" in args:
+        c["may_fail"] = True; c["nopred_ok"] = True       # a structure line that is not WUSS (or is in the old notation) is refused with a message
+    return c
+
+
 def ref_seed(rng):
     return str(rng.choice([1, 2, 3, 42, 2 ** 31 - 1, rng.randrange(1, 2 ** 31), rng.randrange(1, 2 ** 31)]))
 
@@ -1049,6 +1106,51 @@ def ref_alistat_info(rng, i):
             "ops": [op_file("in.sto", text),
                     op_run("esl-alistat", [ABCFLAG[abc], "--list", "l.out", "--rinfo", "r.out", "--cinfo", "c.out", "--noambig", "in.sto"]),
                     "cat name=l.out", "cat name=r.out", "cat name=c.out"]}
+
+
+DEGEN = {DNA: "RYMKSWHBVDN", "ACGU": "RYMKSWHBVDN", AMINO: "BJZOUX"}
+
+
+def ref_alistat_exact(rng, i):
+    """esl-alistat on Stockholm / Pfam files read in digital mode: one or several alignments (named or not), with / without RF,
+    degenerate residues (shared out by esl_abc_DCount), '.', '_', '~', '*' columns, weights present but not asked for, alignments
+    wider than a block; default and -1 summary; --list / --icinfo / --rinfo / --iinfo / --cinfo [--noambig] files compared byte for byte"""
+    abc = rng.choice([DNA, "ACGU", AMINO])
+    nali = rng.choice([1, 1, 2, 3])
+    pfam = rng.random() < 0.3
+    want_iinfo = rng.random() < 0.4
+    text = ""
+    for a in range(nali):
+        rows, _ = wide_rows(rng, abc=abc, nseq=rng.choice([1, 2, 3, 6, 9]), alen=rng.choice([1, 2, 7, 30, 61, 130, 205]),
+                            gaps=rng.choice(["-", "-.", "-._", "-.~"]))
+        alen = len(rows[0][1])
+        if rng.random() < 0.5:      # degenerate residues, lower case, a few '*' (nonresidue) and '~' (missing)
+            extra = DEGEN[abc] + DEGEN[abc].lower() + rng.choice(["", "*", "~", "*~"])
+            rows = [(n, "".join(rng.choice(extra) if rng.random() < 0.12 else (c.lower() if rng.random() < 0.1 else c) for c in s_)) for n, s_ in rows]
+        if rng.random() < 0.15 and alen > 2:      # a column made of degenerate residues only (--noambig: nothing counted there)
+            k = rng.randrange(alen); rows = [(n, s_[:k] + rng.choice(DEGEN[abc]) + s_[k + 1:]) for n, s_ in rows]
+        rf = None
+        if want_iinfo or rng.random() < 0.4:
+            rf = "".join(rng.choice("xX") if rng.random() < 0.7 else rng.choice(".-~") for _ in range(alen))
+            if not any(c in "xX" for c in rf): rf = "x" + rf[1:]
+        name = rng.choice([None, "aln%d" % (a + 1), "a_long_alignment_name_%d" % (a + 1)])
+        cpl = alen if pfam else rng.choice([alen, 200, 50, 77])
+        t = sto_text_blocks(rows, max(1, cpl), rf=rf, ident=name)
+        if rng.random() < 0.25:
+            t = t.replace("# STOCKHOLM 1.0\n", "# STOCKHOLM 1.0\n" + "".join("#=GS %s WT %s\n" % (n, rng.choice(["1.0", "0.5", "2.25"])) for n, _ in rows), 1)
+        text += t
+    args = [ABCFLAG[abc], "--informat", "pfam" if pfam else "stockholm"]
+    if rng.random() < 0.35: args.append("-1")
+    cats = []
+    for opt, f in (("--list", "l.out"), ("--icinfo", "ic.out"), ("--rinfo", "r.out"), ("--cinfo", "c.out")):
+        if rng.random() < 0.5:
+            args += [opt, f]; cats.append("cat name=" + f)
+    if want_iinfo:
+        args += ["--iinfo", "i.out"]; cats.append("cat name=i.out")
+    if rng.random() < 0.3: args.append("--noambig")
+    rng.shuffle(cats)
+    return {"name": "ref-alistatx-%d" % i, "ref": True, "sticky": 1,
+            "ops": [op_file("in.sto", text), op_run("esl-alistat", args + ["in.sto"])] + cats}
 
 
 def _check_alistat_info(case, out):
@@ -1567,7 +1669,7 @@ def _reformat_build(rng, opts):
     wuss = [n for n in ("--wussify", "--dewuss", "--fullwuss") if n in on]
     want_ss = True if wuss else None
     want_rf = True if "--keeprf" in on else None
-    outfmt = on.pop("<outfmt>", None) or rng.choice(MSAFORMATS)
+    outfmt = on.pop("<outfmt>", None) or rng.choice(MSAFORMATS + ["fasta", "fasta"])    # fasta: the tool's sequence branch over an alignment file
     alen = on.pop("<alen>", None)
     if "--namelen" in on and rng.random() < 0.7 and outfmt not in ("phylip", "phylips"):
         outfmt = rng.choice(["phylip", "phylips"])
@@ -1580,6 +1682,10 @@ def _reformat_build(rng, opts):
     c = {"ops": ops + [op_run("esl-reformat", args)], "sticky": len(ops)}
     if "--wussify" in on and ("--mingap" in on or "--nogap" in on):
         # old-notation structure lines are not WUSS: the base-pair repair of the column removal refuses them (exit 1 + message)
+        c["may_fail"] = True; c["nopred_ok"] = True
+    if "--fullwuss" in on and outfmt == "fasta":
+        # unaligned output: the per-sequence structure line is dealigned with its sequence (a pair can lose one partner) before
+        # esl_wuss_full() sees it: "Bad SS for <name>: not in WUSS format" + exit 1 is a legitimate outcome (the reference says none)
         c["may_fail"] = True; c["nopred_ok"] = True
     if rng.random() < 0.1:
         c["ops"][-1] = op_run("esl-reformat", ["-o", "out.txt"] + args); c["ops"].append("cat name=out.txt")
@@ -1604,7 +1710,7 @@ def reformat_grid_cases(ctx):
     """all output formats x --namelen x alignment widths around one output block (PHYLIP 60, Stockholm 200)"""
     rng = ctx.rng
     out = []
-    for outfmt in MSAFORMATS:
+    for outfmt in MSAFORMATS + ["fasta"]:
         for nl in ([None, "10", "7", "25"] if outfmt in ("phylip", "phylips") else [None, "12"]):
             for alen in (60, 61, rng.choice([75, 120, 121, 150, 201, 260])):
                 opts = ([("--namelen", nl)] if nl else []) + [("<outfmt>", outfmt), ("<alen>", alen)]
@@ -1902,9 +2008,18 @@ def sweep_cases(ctx):
     return out
 
 
-REF_GENERATORS = [("esl-afetch exact", ref_afetch_exact), ("esl-reformat hmmpgmd", ref_hmmpgmd), ("esl-sfetch afa", ref_sfetch_afa), ("esl-alistat info", ref_alistat_info), ("small modes", ref_small), ("esl-afetch -f", ref_afetch_multi), ("esl-alimask", ref_alimask), ("esl-alimanip", ref_alimanip), ("easel index", ref_index), ("easel filter", ref_filter), ("esl-weight", ref_weight), ("esl-afetch", ref_afetch), ("roundtrip", ref_roundtrip), ("esl-alistat", ref_alistat), ("esl-translate", ref_translate), ("esl-sfetch", ref_sfetch), ("esl-seqstat", ref_seqstat), ("esl-alirev", ref_alirev), ("esl-alipid", ref_alipid),
+REF_GENERATORS = [("esl-alistat exact", ref_alistat_exact), ("esl-afetch exact", ref_afetch_exact), ("esl-reformat msa->fasta", ref_reformat_msa2fasta), ("esl-reformat hmmpgmd", ref_hmmpgmd), ("esl-sfetch afa", ref_sfetch_afa), ("esl-alistat info", ref_alistat_info), ("small modes", ref_small), ("esl-afetch -f", ref_afetch_multi), ("esl-alimask", ref_alimask), ("esl-alimanip", ref_alimanip), ("easel index", ref_index), ("easel filter", ref_filter), ("esl-weight", ref_weight), ("esl-afetch", ref_afetch), ("roundtrip", ref_roundtrip), ("esl-alistat", ref_alistat), ("esl-translate", ref_translate), ("esl-sfetch", ref_sfetch), ("esl-seqstat", ref_seqstat), ("esl-alirev", ref_alirev), ("esl-alipid", ref_alipid),
                   ("esl-seqrange", ref_seqrange), ("esl-selectn", ref_selectn), ("esl-mask", ref_mask),
                   ("esl-reformat", ref_reformat), ("esl-shuffle", ref_shuffle), ("easel downsample", ref_downsample)]
+
+
+# witnesses of findings that were repaired in /repo: plain regression cases (name, fixing commit, ops)
+RETIRED_WITNESSES = [
+    ('esl_alimerge_asan_heap_buffer_overflow_determine_gap_columns', '5e1f0af', ['file name=m0 hex=0a233d43530a233d52460a736571312041434445464748494b4c4d4e50515253545657590a6c6f6e675f6e616d65204748494b4c4d4e50515253545657590a626c616e6b5f7365715f616c6c5f67617073200a736571322041434445462d2d2d4b4c4d4e50515253545657590a736571332041434445462e2e2e4b4c4d4e50515253545657590a2320656d62656464656420636f6d6d656e7473206f6b0a736571342041434445464748494b4c4d4e50515253545657590a207365713520434445464748494b4c4d4e50515253545657590a233d5353200a233d53410a0a0a0a233d43530a233d52460a736571312041434445464748494b4c4d4e50515253545657590a6c6f6e675f6e616d65204748494b4c4d4e50515253545657590a626c616e6b5f7365715f616c6c5f67617073200a736571322041434445464748494b4c4d4e50515253545657590a736571332041434445464748494b4c4d4e50515253545657590a736571342041434445464748494b4c4d4e50515253545657590a736571352041434445464748494b4c4d4e50515253545657590a233d5353200a233d5341', 'file name=in0 hex=6d300a', 'run tool=esl-alimerge args=2d2d6c69737400696e30']),
+    ('esl_histplot_asan_heap_buffer_overflow_esl_vec_DSet', '7d2bcba', ['file name=in0 hex=31300a322e350a332e310a322e', 'run tool=esl-histplot args=2d2d73686f77657870002d2d6d617800302e31002d62002d2d6d7500322e3000696e30']),
+    ('esl_histplot_asan_heap_buffer_overflow_esl_histogram_PlotSur', 'e843eeb', ['file name=in0 hex=-', 'run tool=esl-histplot args=2d2d7375727600696e30']),
+    ('input_layer_asan_heap_buffer_overflow_esl_fgets', '69f253a', ['file name=in0 hex=002d302e32373339303320302e3834363636330a2d342e343532383820302e303335333835380a', 'run tool=esl-histplot args=2d6f006f75742e30002d2d6578707461696c6c6f63002d2d67756d62656c002d2d6c616d62646100302e3500696e30']),
+]
 
 
 def corpus_cases(ctx):
@@ -1960,6 +2075,8 @@ def corpus_cases(ctx):
         {"name": "corpus-translate-short", "ref": True, "sticky": 1,
          "ops": [op_file("in.fa", ">a\nCC\n>b a desc\nATTG\n"), op_run("esl-translate", ["-l", "0", "-m", "--crick", "--informat", "fasta", "in.fa"])]},
     ]
+    for nm, commit, ops in RETIRED_WITNESSES:
+        out.append({"name": "corpus-regress-%s-%s" % (commit, nm), "ops": list(ops)})
     # invalid arguments on valid files: a non-zero exit status with a diagnostic is REQUIRED (a tool that silently
     # accepts them and prints something is as wrong as one that dies)
     afa = ">s1\nACGTACGTAA\n>s2\nACGTAC-TAA\n>s3\nTTGTACGTCA\n"
